@@ -127,6 +127,23 @@ end Cancel
 
 namespace Cancel
 
+/-- A route that is closed at time t is closed at every later time. -/
+theorem routeOpen_antitone (c : Cfg) (m : MSt) (i t t' : Nat) (h : routeOpen c m i t = false) (hle : t ≤ t') :
+    routeOpen c m i t' = false := by
+  unfold routeOpen at *
+  cases hr : callRoute c i with
+  | conn => simp [hr] at h
+  | oneShot k => simp [hr] at h
+  | standalone => simpa [hr] using h
+  | reqStream p =>
+    simp only [hr] at h ⊢
+    cases hf : m.closed p with
+    | none => simp [hf, optAll] at h
+    | some x =>
+      rw [hf] at h
+      simp only [optAll, decide_eq_false_iff_not] at h ⊢
+      omega
+
 /-- The monitor's summary of the ghost trace. -/
 abbrev M (s : St) : MSt := summ s.trace
 
@@ -137,22 +154,28 @@ structure Inv (c : Cfg) (s : St) : Prop where
   fin_iff : ∀ i, ((M s).fin i).isSome = (s.req i == .finished)
   can_eq : ∀ i, ((M s).can i).map (·.2) = s.ctxDone i
   ret_eq : ∀ i, ((M s).ret i).map (·.2) = s.res i
-  ret_at : ∀ i t dl, (M s).ret i = some (t, .ctx dl) → t = s.noticeAt i
+  le_noticeAt : ∀ i, s.noticeAt i ≤ s.now
+  ret_after : ∀ i t dl, (M s).ret i = some (t, .ctx dl) → s.noticeAt i ≤ t
   snd_iff : ∀ i, ((M s).snd i).isSome = (s.req i != .idle)
   hc_of : ∀ i, s.hcan i = true → s.req i = .running → ((M s).hc i).isSome = true
-  inflight : ∀ i, s.req i ≠ .idle → s.res i = none → s.reg i = true ∨ s.got i = true
+  inflight : ∀ i, s.req i ≠ .idle → s.res i = none → s.reg i = true ∨ s.got i = true ∨ s.retired i = true
   issued : ∀ i, s.res i ≠ none → s.req i ≠ .idle
   active : ∀ i, s.reg i = true ∨ s.got i = true → s.req i ≠ .idle
   answered : ∀ i, s.reg i = true → (s.req i = .finished ∨ s.req i = .skipped) → s.respTransit i = true
   hcan_of : ∀ i, s.hcan i = true → s.notice i = .delivered
-  notice_iff : ∀ i, s.notice i ≠ .none ↔ ∃ dl, s.res i = some (.ctx dl)
-  res_ctx : ∀ i dl, s.res i = some (.ctx dl) → s.ctxDone i = some dl
+  notice_ctx : ∀ i, s.notice i ≠ .none → s.ctxDone i ≠ none
+  retired_notice : ∀ i, s.retired i = true → s.notice i ≠ .none
+  ctx_issued : ∀ i, s.ctxDone i ≠ none → s.req i ≠ .idle
+  abort_notice : ∀ i, abortIsNotice c i = true → s.ctxDone i ≠ none → s.notice i ≠ .none
+  notice_src : ∀ i, s.notice i ≠ .none → s.retired i = true ∨ abortIsNotice c i = true
+  retired_excl : ∀ i, s.retired i = true → s.reg i = false ∧ s.got i = false
+  res_ctx : ∀ i dl, s.res i = some (.ctx dl) → s.ctxDone i = some dl ∧ s.retired i = true
   pending_now : ∀ i, s.notice i = .pending → (c.info i).fault = false → s.now = s.noticeAt i
   dropped : ∀ i, s.notice i = .dropped →
     (c.info i).fault = true ∨ expected c i = false ∨ routeOpen c (M s) i (s.noticeAt i) = false
   delivered : ∀ i, s.notice i = .delivered → sameConn c i = true → (s.req i = .queued ∨ s.req i = .running) → s.hcan i = true
   delivered_nt : ∀ i, s.notice i = .delivered → s.req i ≠ .transit
-  urgent_now : ∀ i, s.ctxDone i ≠ none → (s.reg i = true ∨ s.got i = true) → s.res i = none →
+  urgent_now : ∀ i, s.ctxDone i ≠ none → (s.reg i = true ∨ s.got i = true ∨ s.retired i = true) → s.res i = none →
     ∃ dl, (M s).can i = some (s.now, dl)
   encl_run : ∀ i p, s.req i ≠ .idle → (c.info i).encl = some p → s.req p = .running ∨ s.req p = .finished
   bounded : ∀ i, c.n ≤ i → s.req i = .idle ∧ s.notice i = .none ∧ s.ctxDone i = none
@@ -221,10 +244,10 @@ theorem timeCheck_none {c : Cfg} {s : St} (hk : c.keepValues = true) (I : Inv c 
             | some x => rfl
             | none =>
               simp only
-              have hat := I.ret_at i tr dl hr
+              have hat := I.ret_after i tr dl hr
               have e3 := I.ret_eq i; rw [hr] at e3
               have hres : s.res i = some (.ctx dl) := by simpa using e3.symm
-              have hn : s.notice i ≠ .none := (I.notice_iff i).mpr ⟨dl, hres⟩
+              have hn : s.notice i ≠ .none := I.retired_notice i (I.res_ctx i dl hres).2
               by_cases hex : expected c i = true
               · by_cases hfa : (c.info i).fault = false
                 · by_cases hro : routeOpen c (M s) i tr = true
@@ -238,7 +261,7 @@ theorem timeCheck_none {c : Cfg} {s : St} (hk : c.keepValues = true) (I : Inv c 
                       rcases I.dropped i hnp with h | h | h
                       · rw [hfa] at h; cases h
                       · rw [hex] at h; cases h
-                      · rw [← hat, hro] at h; cases h
+                      · rw [routeOpen_antitone c (M s) i _ tr h hat] at hro; cases hro
                     | delivered =>
                       have hb' := I.beg_iff i; rw [hb] at hb'
                       have hf' := I.fin_iff i; rw [hf] at hf'
@@ -262,7 +285,7 @@ end Cancel
 namespace Cancel
 
 macro "destruct_inv" I:ident : tactic =>
-  `(tactic| obtain ⟨a1, a2, a3, a4, a5, a6, a7, a8, a9, a10, a11, a12, a13, a14, a15, a16, a17, a18, a19, a20, a21, a22, a23, a24⟩ := $I)
+  `(tactic| obtain ⟨a1, a2, a3, a4, a5, a6, a7, a8, a9, a10, a11, a12, a13, a14, a15, a16, a17, a18, a19, a20, a21, a22, a23, a24, a25, a26, a27, a28, a29, a30⟩ := $I)
 
 /-- The `dropped` clause of the invariant survives one more event in the log. -/
 theorem dropped_mono {c : Cfg} {s : St} (e : Ev) (I : Inv c s) :
@@ -321,11 +344,17 @@ theorem inv_cancel {c : Cfg} {s s' : St} (hk : c.keepValues = true) (i : Nat) (d
   simp only [step] at h
   split at h
   · rename_i hp
-    cases h
     have hd := dropped_mono ⟨.can dl, i, s.now⟩ I
     have hg := good_emit hk I (.can dl) i rfl
-    destruct_inv I
-    constructor <;> simp only [M, emit, summ_snoc, mupd] at * <;> grind [upd, setFirst, setFirst_some, setMin_some, setMin_none_iff]
+    split at h
+    · rename_i ha
+      cases h
+      destruct_inv I
+      constructor <;> simp only [M, emit, summ_snoc, mupd] at * <;> grind [upd, setFirst, setFirst_some, setMin_some, setMin_none_iff]
+    · rename_i ha
+      cases h
+      destruct_inv I
+      constructor <;> simp only [M, emit, summ_snoc, mupd] at * <;> grind [upd, setFirst, setFirst_some, setMin_some, setMin_none_iff]
   · cases h
 
 theorem inv_deliver {c : Cfg} {s s' : St} (i : Nat) (I : Inv c s) (h : step c s (.deliver i) = some s') : Inv c s' := by
@@ -402,16 +431,30 @@ theorem inv_retCtx {c : Cfg} {s s' : St} (hk : c.keepValues = true) (i : Nat) (I
     · cases h
   · cases h
 
+theorem inv_retire {c : Cfg} {s s' : St} (i : Nat) (I : Inv c s) (h : step c s (.retire i) = some s') : Inv c s' := by
+  simp only [step] at h
+  split at h
+  · rename_i hp
+    split at h
+    · rename_i ha
+      cases h
+      destruct_inv I
+      constructor <;> simp only [M] at * <;> grind [upd]
+    · rename_i ha
+      cases h
+      destruct_inv I
+      constructor <;> simp only [M] at * <;> grind [upd]
+  · cases h
+
 theorem evCheck_hc {c : Cfg} {s : St} (I : Inv c s) (i : Nat) (h : s.notice i = .pending) :
     evCheck ⟨c, false⟩ (M s) ⟨.hc, i, s.now⟩ = none := by
-  obtain ⟨dl, hres⟩ := (I.notice_iff i).mp (by rw [h]; simp)
-  have h1 := I.res_ctx i dl hres
+  have h1 := I.notice_ctx i (by rw [h]; simp)
   have h2 := I.can_eq i
-  rw [h1] at h2
   cases hc : (M s).can i with
-  | none => rw [hc] at h2; cases h2
+  | none => rw [hc] at h2; simp at h2; exact absurd h2.symm h1
   | some x => simp [evCheck, hc]
 
+set_option maxHeartbeats 1000000 in
 theorem inv_notice {c : Cfg} {s s' : St} (hk : c.keepValues = true) (i : Nat) (I : Inv c s) (h : step c s (.notice i) = some s') : Inv c s' := by
   simp only [step] at h
   split at h
@@ -463,8 +506,7 @@ theorem drop_reason {c : Cfg} {s : St} (hk : c.keepValues = true) (I : Inv c s) 
       | standalone => simpa [hr, routeExists] using h
       | reqStream p =>
         simp only [hr, routeExists, Bool.and_eq_false_iff] at h ⊢
-        obtain ⟨dl, hres⟩ := (I.notice_iff i).mp (by rw [hp]; simp)
-        have hidle := I.issued i (by rw [hres]; simp)
+        have hidle := I.ctx_issued i (I.notice_ctx i (by rw [hp]; simp))
         have hrun := I.encl_run i p hidle (callRoute_reqStream hr)
         have hcl : (M s).closed p ≠ none := by
           intro hn
@@ -520,6 +562,7 @@ theorem inv_step {c : Cfg} (hk : c.keepValues = true) {s s' : St} (l : Label) (I
   | resp i => exact inv_resp i I h
   | retOk i => exact inv_retOk hk i I h
   | cancel i dl => exact inv_cancel hk i dl I h
+  | retire i => exact inv_retire i I h
   | retCtx i => exact inv_retCtx hk i I h
   | notice i => exact inv_notice hk i I h
   | drop i => exact inv_drop hk i I h
